@@ -1342,6 +1342,16 @@ def run(tier, seed, replay=None):
         known_findings_reobserved=known_seen, exhaustive=False,
         exhaustive_parts="column numbers 0..20000; increment on [-40,5]x[0,13]; readers: all tables up to %s (plain and run-length encoded) x 20 readers x all "
                          "addresses with x<=z, y<=t up to one beyond the edge x all form families = %d distinct cases" % ("1x1" if tier == "quick" else "3x3", exhaustive_B))
+    evf = common.ROOT / "evidence" / ("%s.json" % PROP)
+    keep = evf.read_text() if (replay and evf.exists()) else None      # a replay does not replace the evidence of the last full run
+    try:
+        return _finish(proofs, coverage, violations, known_seen, t0, tier, seed)
+    finally:
+        if keep is not None:
+            evf.write_text(keep)
+
+
+def _finish(proofs, coverage, violations, known_seen, t0, tier, seed):
     return common.finish(PROP, tier, seed, proofs, coverage, violations, known_seen, t0,
                          assumptions=["coordinates are ASCII letters and digits (str.isalpha / int() of other scripts are outside the property)",
                                       "writers are driven on tables without repeated runs (repeated runs under writers are C01's subject)",
